@@ -242,6 +242,30 @@ def run_case(case: dict) -> dict:
                 got = float(r2.get_fluxes(concatenated=False)[-1].iloc[-1]["vin"])
                 if abs(got - 4e-9) > 1e-21:
                     viols.append(core.viol("steady state after update_parameters reports the influx of the earlier value", None, net=net.to_json(), reported_influx=got, set_to=4e-9))
+        if rng.random() < 0.4:
+            # nested Monte-Carlo x scan with the relative criterion on a slow network in small units (concentrations around 1e-9,
+            # far below the absolute tolerance): what is reported as steady is the analytic steady state of its row
+            from mxlpy import mc
+
+            kin_name = [r["k"] for r in net.rxns if r["name"] == "vin"][0]
+            slow = {k_: (1e-12 if k_ == kin_name else v_ * 1e-3) for k_, v_ in net.params.items()}
+            m_slow = rm.build(net.spec())
+            m_slow.update_parameters(slow)
+            other = [k_ for k_ in slow if k_ not in (kin_name, kout)][:1] or [kout]
+            inner = pd.DataFrame({other[0]: [slow[other[0]], 2.0 * slow[other[0]]]})
+            outer = pd.DataFrame({kin_name: [1e-12, 3e-12]})
+            rs = mc.scan_steady_state(m_slow, to_scan=inner, mc_to_scan=outer, rel_norm=True, max_workers=2)
+            vv = rs.variables
+            for i_o, kin_v in enumerate(outer[kin_name]):
+                for i_i, ov in enumerate(inner[other[0]]):
+                    row = vv.iloc[i_o * len(inner) + i_i][net.variables].to_dict()
+                    if any(np.isnan(list(row.values()))):
+                        continue
+                    ystar = net.steady(slow | {kin_name: kin_v, other[0]: ov})
+                    counters["mc_scan:small_slow_rows_compared"] = counters.get("mc_scan:small_slow_rows_compared", 0) + 1
+                    if any(abs(row[k_] - ystar[k_]) > 1e-3 * abs(ystar[k_]) + 1e-18 for k_ in ystar):
+                        viols.append(core.viol("mc.scan_steady_state(rel_norm=True): a state that is not the steady state of its row was reported as steady", None, net=net.to_json(), parameters=slow | {kin_name: kin_v, other[0]: ov}, got=row, expected=ystar))
+                        break
         sample = {"scan": {kout: vals}, "net": net.to_json(), "parallel": par}
     return core.result(sig=case["seed"], nontrivial=nontrivial, violations=viols[:3], counters=counters,
                        sample=sample if case.get("idx", 0) < 9 and case.get("idx", 0) % 4 == 0 else None)
